@@ -81,6 +81,23 @@ def main():
         if cut[0][0].shape != cut[1][0].shape or not np.array_equal(cut[0][0], cut[1][0]) or cut[0][1] != cut[1][1]:
             return {"reproduced": True, "detail": "two runs with random_state=11 on a likelihood that is -inf on part of the prior differ",
                     "input": {"probe": "same-seed-with-zero-likelihood-region"}}
+        # (1d) seeds of the integer types programs actually hold (NumPy integer scalars from SeedSequence / integer arrays): same
+        # value => same run as the Python int, whatever the ambient stream; different values differ
+        ref = {}
+        for k in (5, 6):
+            np.random.seed(31)
+            s = mk(k, output_dir=tmp)
+            s.run(n_total=64, progress=False)
+            ref[k] = (s.state.get_history("u", flat=True), s.evidence()[0])
+        for j, sd in enumerate((np.int64(5), np.int32(5), np.uint32(5), np.arange(4, 7)[1], np.int64(6))):
+            np.random.seed(500 + j)
+            s = mk(sd, output_dir=tmp)
+            s.run(n_total=64, progress=False)
+            got = (s.state.get_history("u", flat=True), s.evidence()[0])
+            want = ref[int(sd)]
+            if got[0].shape != want[0].shape or not np.array_equal(got[0], want[0]) or got[1] != want[1]:
+                return {"reproduced": True, "detail": f"random_state={type(sd).__name__}({int(sd)}) does not reproduce the run of random_state={int(sd)}: the seed is not applied "
+                        "for this integer type (the run follows the ambient global stream)", "input": {"probe": "numpy-integer-seed", "type": type(sd).__name__}}
         # (2)
         X = np.random.RandomState(5).rand(300, 2)
         X[:150] += 3
@@ -97,9 +114,19 @@ def main():
             "Sampler.evidence()/results()": lambda: (done.evidence(), done.results()),
             "Sampler.sample() (one more iteration)": lambda: done.sample(),
             "Sampler.save_state": lambda: done.save_state(os.path.join(tmp, "x.state")),
+            "copy.deepcopy(sampler)": lambda: __import__("copy").deepcopy(done),
+            "copy.copy(sampler)": lambda: __import__("copy").copy(done),
+            "dill round trip of a sampler": lambda: __import__("dill").loads(__import__("dill").dumps(done)),
+            "copy.deepcopy(sampler.state)": lambda: __import__("copy").deepcopy(done.state),
+            "Sampler construction with random_state=None": lambda: mk(None, output_dir=tmp),
         }
         for name, op in ops.items():
-            a = after(op)
+            try:
+                a = after(op)
+            except Exception as e:
+                if "copy" in name or "dill" in name:
+                    continue                       # copying / pickling a sampler is not promised to work; only its effect on the stream is checked
+                raise
             if a[0] == a[1]:
                 return {"reproduced": True, "detail": f"after {name} the global stream no longer depends on the seed in force before it (next draw {a[0]} for both pre-seeds)",
                         "input": {"probe": name}}
